@@ -52,7 +52,7 @@ EXC2KIND = {
 }
 
 STRS = ['', 'x', 'y', 'z']
-INTS = [1, 2, 3, 4]
+INTS = [0, 1, 2, 3]        # 0 is in the pool on purpose: a falsy but legal key value
 PKS = [1, 2, 3, 4, 5]
 
 SCALARS = [('int', True, False), ('int', False, False), ('int', False, True), ('int', True, True),
